@@ -349,7 +349,7 @@ def _classify_archive(rec, ents, data, entries, case):
     rec.label("archive:" + ("<=10KiB" if len(data) <= 10240 else "<=100KiB" if len(data) <= 102400 else ">100KiB"))
 
 
-@prop.given("chunking", chunking_cases, quick=160, thorough=5000, shrink=False, max_shards=8)
+@prop.given("chunking", chunking_cases, quick=160, thorough=5000, shrink=False)
 async def check_chunking(case, rec):
     import shutil
     import tempfile
@@ -440,7 +440,7 @@ def writer_cases(max_size: int | None = None):
     return st.tuples(st.integers(0, 2**32 - 1), _source_strategy(max_size), top).map(_decode_writer)
 
 
-@prop.given("writer", writer_cases, quick=80, thorough=3000, shrink=False, max_shards=4)
+@prop.given("writer", writer_cases, quick=80, thorough=3000, shrink=False)
 async def check_writer(case, rec):
     """copy_local_to_remote's half: the async writer's archive is what GNU tar and tarfile understand."""
     import shutil
